@@ -78,11 +78,15 @@ func (t *Type) inStruct(source *Type, field string) *Type {
 type StructField struct {
 	Path []string
 	Type *Type
+	// Obj is the matched field or method.
+	Obj types.Object
 }
 
 type SimpleStructField struct {
 	Name string
 	Type *Type
+	// Obj is the matched field or method.
+	Obj types.Object
 }
 
 // StructField returns the type of a struct field and its name upon successful match or
@@ -100,7 +104,7 @@ func (t Type) findAllFields(path []string, name string, ignoreCase bool) (*Struc
 			// exact match takes precedence over case-insensitive match
 			newPath := append([]string{}, path...)
 			newPath = append(newPath, obj.Name())
-			f := &StructField{Path: newPath, Type: TypeOf(obj.Type()).inStruct(&t, obj.Name())}
+			f := &StructField{Path: newPath, Type: TypeOf(obj.Type()).inStruct(&t, obj.Name()), Obj: obj}
 			if exact {
 				return f
 			}
@@ -136,7 +140,7 @@ func FindExactField(source *Type, name string) (*SimpleStructField, error) {
 	if exactMatch == nil {
 		return nil, fmt.Errorf("%q does not exist", name)
 	}
-	return &SimpleStructField{Name: exactMatch.Path[0], Type: exactMatch.Type}, nil
+	return &SimpleStructField{Name: exactMatch.Path[0], Type: exactMatch.Type, Obj: exactMatch.Obj}, nil
 }
 
 type NoMatchError struct{ Field string }
